@@ -21,6 +21,10 @@ fn main() {
     let kmax = if quick { 6 } else { 8 };
     let st = ohmc::props::structured::programs(kmax);
     ctx.run_slice(Slice::new(format!("structured-programs[sizes 1..{}: {} programs]", kmax, st.len()), st.len() as u64, |i, loc| check::<B>(&st[i as usize].1, loc)));
+    // the same program families at large size parameters (size thresholds, long chains, wide layers)
+    let sizes: Vec<usize> = if quick { vec![33, 64, 65, 129] } else { vec![33, 64, 65, 129, 255, 256, 257, 513] };
+    let big = ohmc::props::structured::programs_at(&sizes, false);
+    ctx.run_slice(Slice::new(format!("structured-programs-large[sizes {:?}: {} programs, 3 patterned input vectors each]", sizes, big.len()), big.len() as u64, |i, loc| check_large::<B>(&big[i as usize].1, loc)));
     let meta = Meta {
         rule: "every diagram over the test signature (add, mul, sub 2->1; neg 1->1; copy 1->2; swapinc 2->2; const 0->1; discard 1->0; and 2->1, arities fixed by the label) within the bounds, in every numbering (the universe is closed under renumbering); classified by the reference into cyclic (must be refused), functional (acyclic, single writer, every read node written: outputs and the multiset of interpreter calls are compared for every input vector over {0,1,2,3}) and other acyclic (must return a result); run under the checked and the release-like profile; plus structured families of larger diagrams, enumerated completely for every size parameter up to the stated bound and in five numberings (fan-out/fan-in, k parallel operations, chains, stars, cycles with tails, diamonds, multiplicity k, operations whose predecessors sit at depths j and k of a chain, one node read k times)".into(),
         bounds: "quick: <=3 nodes, <=2 operations (5-letter signature, interfaces <=2), <=3 operations (3-letter signature, interfaces <=1); thorough: full signature with <=2 operations, <=3-4 operations on <=3-4 nodes for sub-signatures".into(),
